@@ -19,6 +19,8 @@ _T = "TornadoModel.C38."
 THEOREMS = [_T + n for n in [
     "callback_once_fifo", "callback_all_ran_when_idle", "timeout_not_before_deadline", "removed_never_runs",
     "add_future_later_iteration",
+    "timeout_order", "timeout_at_most_once", "timeout_pending_or_done", "timeout_all_accounted",
+    "sim", "reach_view_inv", "invO_step", "invG_step", "invH_step", "sortT_perm", "sortT_sorted",
     "errors_logged", "errors_do_not_stop_loop", "loop_continues", "run_sync_outcomes", "run_sync_result",
     "run_sync_reraises", "run_sync_timeout", "run_sync_never_completing",
     "invA_step", "invB_step", "invD_step", "invE_step", "invF_step", "reach_inv",
@@ -58,8 +60,9 @@ CLAUSES = {
         "threads, both tiers); many concurrent plain threads: tie only (thorough tier)",
     "timeouts run not before their deadline": "timeout_not_before_deadline",
     "timeouts never run after remove_timeout": "removed_never_runs",
-    "timeouts run once, in deadline order": "tie only: Spec.whenOrder / timerAtMostOnce / timersAccounted evaluated on every "
-        "observed trace (timeout_order_goal, timeout_at_most_once_goal, timeout_all_accounted_goal)",
+    "timeouts run once, in deadline order": "timeout_order (non-decreasing effective deadline, any tie-break pref) + "
+        "timeout_at_most_once + timeout_all_accounted (idle => every scheduled timeout ran or was removed; at every moment: "
+        "timeout_pending_or_done); the same Spec predicates are evaluated on every observed trace",
     "exceptions are logged without stopping the loop": "errors_logged + errors_do_not_stop_loop + loop_continues",
     "add_future callbacks always run on a later iteration": "add_future_later_iteration",
     "run_sync returns the result, re-raises, or raises TimeoutError after cancelling": "run_sync_outcomes (+ run_sync_result/_reraises/_timeout/_never_completing)",
